@@ -43,14 +43,15 @@ type rmsg struct {
 }
 
 type receipt struct {
-	Seq    int64  `json:"seq"`
-	Node   string `json:"node"`
-	Inst   int    `json:"inst"`
-	Mode   string `json:"mode"` // ok | 500 | hang | close
-	Msgs   []rmsg `json:"msgs"`
-	Hash   string `json:"hash"`
-	Bad    string `json:"bad,omitempty"`
-	NodeID string `json:"node_id"` // node_id field of the envelope
+	Seq     int64  `json:"seq"`
+	Node    string `json:"node"`
+	Inst    int    `json:"inst"`
+	Mode    string `json:"mode"` // ok | 500 | hang | close
+	Msgs    []rmsg `json:"msgs"`
+	Hash    string `json:"hash"`
+	Bad     string `json:"bad,omitempty"`
+	Aborted bool   `json:"aborted,omitempty"` // body not received completely
+	NodeID  string `json:"node_id"`           // node_id field of the envelope
 }
 
 type leaderEv struct {
@@ -132,8 +133,12 @@ func (e *endpoint) snapshot() []receipt {
 }
 
 func (e *endpoint) ServeHTTP(w http.ResponseWriter, r *http.Request) {
-	body, _ := io.ReadAll(r.Body)
+	body, rerr := io.ReadAll(r.Body)
 	rc := receipt{}
+	if rerr != nil || (r.ContentLength >= 0 && int64(len(body)) != r.ContentLength) {
+		// the sender gave up while the body was in transit: not a payload
+		rc.Aborted = true
+	}
 	// path: /cdc/<node>/<inst>
 	parts := strings.Split(strings.Trim(r.URL.Path, "/"), "/")
 	if len(parts) == 3 {
@@ -141,8 +146,8 @@ func (e *endpoint) ServeHTTP(w http.ResponseWriter, r *http.Request) {
 		rc.Inst, _ = strconv.Atoi(parts[2])
 	}
 	var env wireEnvelope
-	if err := json.Unmarshal(body, &env); err != nil {
-		rc.Bad = "unparsable body: " + err.Error()
+	if err := json.Unmarshal(body, &env); err != nil && !rc.Aborted {
+		rc.Bad = fmt.Sprintf("unparsable body (%d bytes, content-length %d): %v", len(body), r.ContentLength, err)
 	}
 	rc.NodeID = env.NodeID
 	for _, m := range env.Payload {
@@ -157,6 +162,8 @@ func (e *endpoint) ServeHTTP(w http.ResponseWriter, r *http.Request) {
 
 	e.mu.Lock()
 	switch {
+	case rc.Aborted:
+		rc.Mode = "aborted"
 	case e.calm:
 		rc.Mode = "ok"
 	case e.outage:
@@ -180,7 +187,7 @@ func (e *endpoint) ServeHTTP(w http.ResponseWriter, r *http.Request) {
 	switch rc.Mode {
 	case "ok":
 		w.WriteHeader(http.StatusOK)
-	case "500":
+	case "500", "aborted":
 		w.WriteHeader(http.StatusInternalServerError)
 	case "hang":
 		time.Sleep(e.hang)
@@ -361,9 +368,23 @@ func (w *world) restart(n *hcluster.Node) error {
 	old := w.cdc[n.Name]
 	w.mu.Unlock()
 	n.Store.NoSnapshotOnClose = true
-	if err := n.Close(); err != nil {
+	// Store.Close waits for raft's goroutines; hashicorp/raft's replication
+	// pipeline can deadlock on shutdown (pipelineSend blocked on a full
+	// in-progress channel whose decoder is blocked on a full done channel), so
+	// the wait is bounded and a stuck close ends the history without a verdict.
+	cerr := make(chan error, 1)
+	go func() { cerr <- n.Close() }()
+	select {
+	case err := <-cerr:
+		if err != nil {
+			w.cl.Net.HealAll()
+			return fmt.Errorf("close: %w", err)
+		}
+	case <-time.After(90 * time.Second):
 		w.cl.Net.HealAll()
-		return fmt.Errorf("close: %w", err)
+		fmt.Fprintf(os.Stderr, "Close of %s did not return within 90 s; goroutines follow\n", n.Name)
+		pprof.Lookup("goroutine").WriteTo(os.Stderr, 1)
+		return fmt.Errorf("node Close of %s did not return within 90 s", n.Name)
 	}
 	if old != nil {
 		old.stopped = true
